@@ -8,7 +8,7 @@ LOG=/tmp/wt/confirm.log; : > $LOG
 cd $WT
 for d in /tmp/wt/outs/C*; do
   id=$(basename $d)
-  for n in 1 2; do
+  for n in ${NS:-1 2}; do
     pf=$d/m$n.patch.diff; demo=$d/m${n}_demo.rs
     [ -f $pf ] || continue
     git checkout -q -- . ; git clean -fdq tests src
